@@ -135,6 +135,7 @@ var checks = []Check{
 		Assumptions: append([]string{"mini Redis Cluster (ownership changes are atomic cluster-wide; a restarted node keeps its data)", "default schedule per operation; the random seed-host choice rotates fairly"}, engineAssumptions...),
 		Jobs: []Job{
 			{Pkg: "proc/redis", Scenarios: []string{"C07/histories"}, Shards: 16, QuickS: 90, ThoroughS: 900},
+			{Pkg: "proc/redis", Scenarios: []string{"C02/upstream-redirect"}, Shards: 16, QuickS: 150, ThoroughS: 900},
 			{Pkg: "proc/redis", Scenarios: []string{"C02/stack-race"}, Race: true, Shards: 1, QuickS: 120, ThoroughS: 600},
 			{Pkg: "proc/redis", Scenarios: []string{"C07/concurrent-loss"}, Shards: 16, QuickS: 60, ThoroughS: 600},
 			{Pkg: "proc/redis", Scenarios: []string{"C07/refresh-in-flight"}, Shards: 16, QuickS: 60, ThoroughS: 600},
